@@ -626,6 +626,25 @@ def d8_fft_guards(ctx, obs):
         n += 1
         key = 'obs.py:Obs.gamma_method#guard[%s]' % unparse(c)
         exact = any(isinstance(op, (ast.Eq, ast.NotEq, ast.Is, ast.IsNot)) for op in c.ops)
+        # a magnitude threshold on a variance-like quantity breaks the scaling with |c| unless it only guards against underflow:
+        # the constant is evaluated (numpy float limits) and has to be of the order of the smallest normal double
+        if len(c.ops) == 1 and isinstance(c.ops[0], (ast.Lt, ast.LtE)) and any(isinstance(x, ast.Call) and call_name(x) == 'abs' for x in ast.walk(c.left)):
+            class _FI:
+                tiny = 2.2250738585072014e-308
+                eps = 2.220446049250313e-16
+                max = 1.7976931348623157e+308
+                min = -1.7976931348623157e+308
+
+            class _NP:
+                float64 = float
+                finfo = staticmethod(lambda *a, **k: _FI)
+            try:
+                thr = float(eval(compile(ast.Expression(body=c.comparators[0]), '<threshold>', 'eval'), {'__builtins__': {'float': float}}, {'np': _NP}))
+            except Exception:
+                thr = None
+            if thr is not None:
+                ctx.check(rule, key + '#underflow-only', thr <= 1e-290, 'the threshold %.3g only catches underflow' % thr,
+                          'data whose variance is below %.3g is treated as constant (error 0, tau_int 1/2): the error no longer scales with |c| for small-valued observables' % thr, obs.loc(c))
         ctx.check(rule, key, not exact, 'guard on %s is an inequality (same outcome with and without FFT round-off)' % hit[0],
                   'exact equality test on %s, which is only zero up to round-off on the FFT path: FFT and direct evaluation take different branches' % hit[0], obs.loc(c))
     ctx.floor('guards on FFT-computed quantities', n, 2)
@@ -643,6 +662,11 @@ def run(ctx):
     obs = ctx.repo.mod('obs')
     ctx.guarded('C03-D1', 'obs.py:Obs.gamma_method@effects', d1_effects, ctx, obs)
     ctx.guarded('C03-D2', 'obs.py:Obs.gamma_method@stale', d2_stale, ctx, obs)
+    # no memoisation across analyses: module-level containers / function attributes / mutable defaults written on the analysis path
+    from .. import hiddenstate
+    ctx.guarded('C03-D2', 'obs.py@hidden-state', hiddenstate.check, ctx, 'C03-D2', obs,
+                ['Obs.gamma_method', 'Obs._calc_gamma', '_expand_deltas', '_determine_gap', 'Obs.__init__', 'derived_observable', '_merge_idx', '_expand_deltas_for_merge', '_reduce_deltas'],
+                'the outcome of an error analysis')
     ctx.guarded('C03-D3', 'obs.py:_parse_kwarg', d3_precedence, ctx, obs)
     ctx.guarded('C03-D4', 'obs.py@units', d4_units, ctx, obs)
     ctx.guarded('C03-D5', 'obs.py@read-set', d5_readset, ctx, obs)
@@ -658,6 +682,8 @@ def run(ctx):
 
 
 SELFTEST = [
+    ('variance-guard-eps', 'pyerrors/obs.py', "< 10 * np.finfo(float).tiny:", "< 1e-25:", 'C03-D8'),
+    ('pair-count-cache', 'pyerrors/obs.py', "                gamma_div += self._calc_gamma(np.ones((self.shape[r_name])), self.idl[r_name], self.shape[r_name], w_max, fft, gapsize)", "                key_ = (self.idl[r_name][0], len(self.idl[r_name]), w_max)\n                if key_ not in Obs._div_cache:\n                    Obs._div_cache[key_] = self._calc_gamma(np.ones((self.shape[r_name])), self.idl[r_name], self.shape[r_name], w_max, fft, gapsize)\n                gamma_div += Obs._div_cache[key_]", None),
     ('pair-count-exact-zero', 'pyerrors/obs.py', "gamma_div[gamma_div < 1] = 1.0", "gamma_div[gamma_div == 0] = 1.0", 'C03-D8'),
     ('benign-pair-count-half', 'pyerrors/obs.py', "gamma_div[gamma_div < 1] = 1.0", "gamma_div[gamma_div < 0.5] = 1.0", 'BENIGN'),
     ('tail-sign-not-absolute', 'pyerrors/obs.py', "+ texp * np.abs(self.e_rho[e_name][n + 1])", "+ texp * self.e_rho[e_name][n + 1]", 'C03-D6'),
